@@ -550,6 +550,8 @@ def check_sample_documents(ctx):
         'saturating-law': ([('A', 1)], [('A', 1), ('B', 3)], 'k1*A/(K+A)'),
         'plain-mass-action': ([('A', 1), ('B', 1)], [('C', 2)], 'k1*A*B'),
         'repeated-species-reference': ([('A', 1), ('A', 1)], [('C', 1), ('B', 1), ('C', 2)], 'k1*A*A'),
+        # a law that takes negative values (reversible="false" is only a hint in SBML: the law's value is the rate, whatever its sign)
+        'law-with-negative-values': ([('A', 1)], [('B', 2)], 'k1*(A-B)'),
     }
     for label, (reac, prod, law) in samples.items():
         species = {'A': 1.0, 'B': 2.0, 'C': 0.0}
@@ -602,7 +604,8 @@ def check_sample_documents(ctx):
                 raise AnalysisError('import_sbml_reactions: the reaction tuple for the sample document %s could not be evaluated (%r)' % (label, rx))
             if rx[0] != want_r or rx[1] != want_p:
                 problems.append('reactants %r / products %r, the document says %r / %r' % (rx[0], rx[1], want_r, want_p))
-            loc = {nm: sp.Symbol(nm, positive=True) for nm in list(species) + list(params)}
+            loc = {nm: sp.Symbol(nm, real=True) for nm in list(species) + list(params)}
+            loc.update({'max': sp.Max, 'min': sp.Min, 'abs': sp.Abs, 'Heaviside': sp.Heaviside})
             want = sp.sympify(law, locals=loc)
             if rx[2] == 'general' and rx[3].get('type') == 'general':
                 try:
@@ -663,7 +666,7 @@ def check(ctx):
     ctx.floor('R13.8-printer-language', 6)
     try:
         check_sample_documents(ctx)
-        ctx.floor('R13.7-sample-document', 4)
+        ctx.floor('R13.7-sample-document', 5)
     except AnalysisError as e:
         # the evaluation could not be carried through.  If the other rules already report violations those are what the run reports;
         # otherwise the run fails closed.
